@@ -246,19 +246,68 @@ type refState struct {
 	logs       int
 	factory    common.Address
 	stats      map[string]int // what the executed scenarios reached (shared by clones; never restored)
+	// module accounts (app/modules.go maccPerms): the bank refuses to credit their addresses, and the guard of
+	// x/evm/vm DestroyAccount refuses to delete them.  x/evm/vm has no error channel for either: AddBalance (mintCoins)
+	// and CommitMultiStore (DestroyAccount of a touched account that is empty) PANIC, which aborts the whole
+	// transaction wherever it happens (a REVERT of the frame cannot catch it).
+	blocked    map[common.Address]bool // addresses of module accounts (shared, read-only)
+	modNames   map[common.Address]string // their names, for the statistics (shared, read-only)
+	isModAcc   map[common.Address]bool // ... that exist as module accounts in the state before the block (shared, read-only)
+	modTouched map[common.Address]bool // module-account addresses touched by surviving frames of the current tx (journaled like every other change)
+	panicked   string                  // "" or why the current transaction is aborted by a panic (never restored by a revert)
 }
 
 func newRefState(factory common.Address) *refState {
 	return &refState{bal: map[common.Address]*big.Int{}, isK: map[common.Address]bool{}, nonce: map[common.Address]uint64{},
 		destructed: map[common.Address]bool{}, burn: big.NewInt(0), factory: factory, stats: map[string]int{},
-		fbal: map[common.Address]coins{}, fburn: coins{}, created: map[common.Address]bool{}}
+		fbal: map[common.Address]coins{}, fburn: coins{}, created: map[common.Address]bool{},
+		blocked: map[common.Address]bool{}, modNames: map[common.Address]string{}, isModAcc: map[common.Address]bool{}, modTouched: map[common.Address]bool{}}
+}
+
+// an independent copy on which a transaction can be tried out (own statistics)
+func (st *refState) trial() *refState {
+	c := st.clone()
+	c.stats = map[string]int{}
+	c.fbal = make(map[common.Address]coins, len(st.fbal))
+	for k, v := range st.fbal {
+		c.fbal[k] = v
+	}
+	c.fburn = coins{}
+	for k, v := range st.fburn {
+		c.fburn[k] = v
+	}
+	return c
+}
+
+func (st *refState) abort(reason string) {
+	if st.panicked == "" {
+		st.panicked = reason
+	}
+}
+
+// the address is credited with v (CALL value, SELFDESTRUCT balance): AddBalance touches it and, for v > 0, mints to it
+func (st *refState) credit(a common.Address, v *big.Int) {
+	if !st.blocked[a] {
+		return
+	}
+	st.modTouched[a] = true
+	if v.Sign() > 0 {
+		st.stats["module-account-credited-with-value:"+st.modNames[a]]++
+		st.abort("value-credited-to-module-account")
+	} else {
+		st.stats["module-account-touched-with-zero-value:"+st.modNames[a]]++
+	}
 }
 
 func (st *refState) clone() *refState {
 	c := &refState{bal: make(map[common.Address]*big.Int, len(st.bal)), isK: make(map[common.Address]bool, len(st.isK)),
 		nonce: make(map[common.Address]uint64, len(st.nonce)), destructed: make(map[common.Address]bool, len(st.destructed)),
 		burn: new(big.Int).Set(st.burn), logs: st.logs, factory: st.factory, stats: st.stats,
-		fbal: st.fbal, fburn: st.fburn, created: make(map[common.Address]bool, len(st.created))}
+		fbal: st.fbal, fburn: st.fburn, created: make(map[common.Address]bool, len(st.created)),
+		blocked: st.blocked, modNames: st.modNames, isModAcc: st.isModAcc, modTouched: make(map[common.Address]bool, len(st.modTouched)), panicked: st.panicked}
+	for k, v := range st.modTouched {
+		c.modTouched[k] = v
+	}
 	for k, v := range st.created {
 		c.created[k] = v
 	}
@@ -279,6 +328,7 @@ func (st *refState) clone() *refState {
 
 func (st *refState) restore(c *refState) {
 	st.bal, st.isK, st.nonce, st.destructed, st.burn, st.logs, st.created = c.bal, c.isK, c.nonce, c.destructed, c.burn, c.logs, c.created
+	st.modTouched = c.modTouched // the touched set is part of a snapshot; a panic is not undone by anything
 }
 
 func (st *refState) get(a common.Address) *big.Int {
@@ -294,6 +344,10 @@ func (st *refState) add(a common.Address, d *big.Int) { st.bal[a] = new(big.Int)
 func (st *refState) transfer(from, to common.Address, v *big.Int) bool {
 	if st.get(from).Cmp(v) < 0 {
 		return false
+	}
+	st.credit(to, v) // core.Transfer: SubBalance(from, v); AddBalance(to, v), also for v = 0 (an existing module account is touched)
+	if st.panicked != "" {
+		return true
 	}
 	if v.Sign() != 0 {
 		st.add(from, new(big.Int).Neg(v))
@@ -326,6 +380,10 @@ func (st *refState) selfdestruct(a, b common.Address) {
 	if st.destructed[b] && amt.Sign() > 0 {
 		st.stats["destroyed-account-refunded"]++
 	}
+	st.credit(b, amt) // opSuicide: AddBalance(beneficiary, balance) comes first
+	if st.panicked != "" {
+		return
+	}
 	if a == b {
 		st.stats["selfdestruct-to-self"]++
 		st.burn = new(big.Int).Add(st.burn, amt) // the balance vanishes
@@ -338,7 +396,7 @@ func (st *refState) selfdestruct(a, b common.Address) {
 
 // a message call with value to target with (non-)empty calldata, from `from`
 func (st *refState) callK(from, target common.Address, v *big.Int, withData bool, benef common.Address) {
-	if !st.transfer(from, target, v) {
+	if !st.transfer(from, target, v) || st.panicked != "" {
 		return
 	}
 	if st.isK[target] && withData {
@@ -349,6 +407,9 @@ func (st *refState) callK(from, target common.Address, v *big.Int, withData bool
 // run a script in frame `frame` (already created, endowment already transferred); reports whether the frame reverted
 func (st *refState) run(frame common.Address, s *script) (reverted bool) {
 	for _, o := range s.ops {
+		if st.panicked != "" {
+			return false // the transaction is gone
+		}
 		switch o.kind {
 		case sSD:
 			b := o.benef
@@ -382,7 +443,7 @@ func (st *refState) run(frame common.Address, s *script) (reverted bool) {
 			st.nonce[child] = 1
 			st.markCreated(child)
 			st.transfer(frame, child, o.value)
-			if st.run(child, o.sub) {
+			if st.run(child, o.sub) && st.panicked == "" {
 				if len(st.destructed) > len(snap.destructed) {
 					st.stats["selfdestruct-in-reverted-frame"]++
 				}
@@ -391,6 +452,9 @@ func (st *refState) run(frame common.Address, s *script) (reverted bool) {
 		case sLog:
 			st.logs++
 		}
+	}
+	if st.panicked != "" {
+		return false
 	}
 	switch s.end {
 	case endRevert:
@@ -407,6 +471,18 @@ func (st *refState) run(frame common.Address, s *script) (reverted bool) {
 
 // end of a committed transaction: self-destructed accounts are deleted, whatever they still hold is destroyed
 func (st *refState) finishTx() {
+	// CommitMultiStore(true): every touched account that is self-destructed or EMPTY goes through DestroyAccount,
+	// whose guard panics for a module account (x/evm/utils CheckIfAccountIsSuitableForDestroyingAt)
+	for a := range st.modTouched {
+		if st.panicked == "" && st.isModAcc[a] && st.get(a).Sign() == 0 && st.fbal[a].isZero() {
+			st.stats["module-account-empty-at-commit:"+st.modNames[a]]++
+			st.abort("touched-empty-module-account")
+		}
+	}
+	st.modTouched = map[common.Address]bool{}
+	if st.panicked != "" {
+		return
+	}
 	ds := make([]common.Address, 0, len(st.destructed))
 	for a := range st.destructed {
 		ds = append(ds, a)
